@@ -348,6 +348,7 @@ func runC17(c *ctx, r *Report) error {
 			key string
 			ref bool
 		}{{"branches", true}, {"branches-ignore", true}, {"tags", true}, {"tags-ignore", true}, {"paths", false}, {"paths-ignore", false}}
+		envVariant := 0
 		pats := []string{"v1:beta", "release/", "/v1", "v1 beta", "v1.", "v\\d", "a++", "[]", "v*", "main", "feature/**", "a~b", "x^", "docs/**/*.md", "!x", "[a-z]+"}
 		for _, ev := range events {
 			for _, k := range keys {
@@ -360,7 +361,15 @@ func runC17(c *ctx, r *Report) error {
 							continue
 						}
 						line := "    " + k.key + ": [" + q + pat + q + "]"
-						src := "on:\n  " + ev + ":\n" + line + "\njobs:\n  j:\n    runs-on: ubuntu-latest\n    steps:\n      - run: echo\n"
+						// events without filters written before / after the one that carries the filter
+						before := [][]string{nil, {"  workflow_dispatch:"}, {"  schedule:", "    - cron: '0 0 * * *'"}, {"  repository_dispatch:", "  workflow_call:"}, {"  issues:"}}[envVariant%5]
+						after := [][]string{nil, nil, {"  workflow_dispatch:"}, nil, {"  schedule:", "    - cron: '0 0 * * *'"}}[envVariant%5]
+						envVariant++
+						lines := append([]string{"on:"}, before...)
+						lines = append(lines, "  "+ev+":", line)
+						filterLine := len(lines)
+						lines = append(lines, after...)
+						src := strings.Join(lines, "\n") + "\njobs:\n  j:\n    runs-on: ubuntu-latest\n    steps:\n      - run: echo\n"
 						errs, err := lintSrc("g.yaml", src)
 						r.Evaluations++
 						if err != nil {
@@ -385,7 +394,7 @@ func runC17(c *ctx, r *Report) error {
 							if w.Column != 0 {
 								c += w.Column - 1
 							}
-							exp = append(exp, fmt.Sprintf("3:%d:%s", c, w.Message))
+							exp = append(exp, fmt.Sprintf("%d:%d:%s", filterLine, c, w.Message))
 						}
 						r.hist("wf-filter:" + map[bool]string{true: "reported", false: "accepted"}[len(got) > 0])
 						r.nontrivial("wf:" + ev + k.key + pat + q)
@@ -397,7 +406,7 @@ func runC17(c *ctx, r *Report) error {
 				}
 			}
 		}
-		r.Rule += "; workflow level: events push / pull_request / pull_request_target × the six filter keys × 16 patterns × two quote styles through the real linter: reported exactly as the validator that belongs to the key reports it, at pattern column + offset"
+		r.Rule += "; workflow level: events push / pull_request / pull_request_target × the six filter keys × 16 patterns × two quote styles, with other events (workflow_dispatch, schedule, repository_dispatch, workflow_call, issues) written before / after the filtered one, through the real linter: reported exactly as the validator that belongs to the key reports it, at pattern column + offset"
 	}
 	r.Exhaustive = true
 	r.sample(map[string]string{"op": "glob ref", "pattern": strconv.Quote("[a-"), "impl": func() string { s, _, _ := canonGlob(actionlint.ValidateRefGlob("[a-")); return s }()})
